@@ -1,0 +1,45 @@
+//! Verification hook (only compiled with `--cfg libp2p_verif`): public access to the crate-private
+//! mDNS packet builder (`dns::build_query_response`) and parser (`MdnsPacket::new_from_bytes`,
+//! `MdnsResponse` / `MdnsPeer`). Declared as a child module of `behaviour::iface::query`; the
+//! wrappers are inherent associated functions of the public `Config` so that they are reachable
+//! from outside the crate. The code that runs is the production code.
+
+use std::{net::SocketAddr, time::Duration};
+
+use libp2p_core::Multiaddr;
+use libp2p_identity::PeerId;
+
+use super::{super::dns, MdnsPacket};
+
+impl crate::Config {
+    /// `dns::build_query_response`
+    #[doc(hidden)]
+    pub fn verif_build_query_response(
+        id: u16,
+        peer_id: PeerId,
+        addresses: &[Multiaddr],
+        ttl: Duration,
+    ) -> Vec<Vec<u8>> {
+        dns::build_query_response(id, peer_id, addresses.iter(), ttl)
+    }
+
+    /// `MdnsPacket::new_from_bytes`; for a response: the peers it reports (id, addresses, ttl).
+    /// `Ok(None)`: not a response (query, service discovery or ignored).
+    #[doc(hidden)]
+    #[allow(clippy::type_complexity)]
+    pub fn verif_parse_packet(
+        buf: &[u8],
+        from: SocketAddr,
+    ) -> Result<Option<Vec<(PeerId, Vec<Multiaddr>, Duration)>>, String> {
+        match MdnsPacket::new_from_bytes(buf, from) {
+            Ok(Some(MdnsPacket::Response(response))) => Ok(Some(
+                response
+                    .discovered_peers()
+                    .map(|p| (*p.id(), p.addresses().clone(), p.ttl()))
+                    .collect(),
+            )),
+            Ok(_) => Ok(None),
+            Err(e) => Err(e.to_string()),
+        }
+    }
+}
